@@ -63,6 +63,7 @@ Inductive action :=
 | ADropReq (tg v occ : nat)
 | AAbort (name : nat)
 | AEvent (tg v : nat)            (* under Core: process_event *)
+| ALive                          (* observe how many tasks the host holds (verification hook), no settling *)
 | ASpawn (t : task).             (* direct host: cmd.spawn(t) on the outermost command, at any time *)
 
 (* Convenience constructors mirroring the public builders *)
